@@ -42,7 +42,7 @@ def position_rule(rep, prog, oks):
     rid = rep.rule("R1", "AC13 is f[19..32) in DF0/4/16/20 and AC12 is f[40..52) in airborne position reports (types 9-18, 20-22)")
     n = 0
     for p in oks:
-        if "Capability::Reserved" in p.label or "DownlinkRequest::Unknown" in p.label:
+        if "Capability::Reserved" in p.label:
             continue
         for l in p.leaves:
             if "adsb_deku::AC13Field" in l.adts:
